@@ -7,12 +7,18 @@
   normalised).  `WellFormed C20Schedule.evolve` — a dataflow analysis by symbolic execution, closed
   by `decide` in Props/C20.lean — is the obligation that breaks when the dataflow of the source
   changes.
-* correspondence: the real class is driven through sequences of API calls (`evolve`, `reset`,
-  `advance`) with scripted operator / logbook / initialisation stubs (in-place mutation, fresh
-  returns, aliasing) that record every call; the Lean driver runs the regenerated schedule with the
-  same script; the two traces must be equal.
-* Spec: `Program.specTrace` / `specAdvance` / the reset clause (Lean) evaluated on what was
-  recorded from the real class.
+* correspondence: the real class (or a subclass) is driven through histories of API calls (`evolve`,
+  `reset`, `advance`; attribute re-assignments `start_X = …`, `t_max = …`, `t_cur = …`; a second
+  logbook; a call interrupted by a failing operator) with scripted operator / logbook /
+  initialisation stubs that record every call.  The start containers are object graphs (dict -> list
+  -> dict / numpy array …, up to 4 levels, shared objects, cycles); the stubs mutate what they are
+  handed in place at every level, mutate objects they KEPT from earlier calls, return handed objects,
+  aliases or fresh containers.  The Lean driver runs the regenerated schedule on the same graph with
+  the same script; the two traces (with the depth-5 unfolding of every container at every call) must
+  be equal.
+* Spec: `Program.specFull` (= `specTrace` + the replicate-counter clause) / `specAdvance` / the reset
+  clause (Lean) evaluated on what was recorded from the real class; the initial state is what the
+  harness handed to the constructor (or what the initialisation operator returned).
 """
 import ast
 import contextlib
@@ -190,6 +196,26 @@ def _stmt(node, sc, guarded=False):
                          or (isinstance(v.func, ast.Attribute) and isinstance(v.func.value, ast.Name)
                              and v.func.value.id == "copy" and v.func.attr == "copy")):
                 return [f".shallowCopyStart {sc.reg(tgt, u)} {_start_slot(v.args[0])}"]
+            # x = {k: copy.copy(v) for k, v in self.start_Y.items()}: a copy that stops two levels down
+            if isinstance(v, ast.DictComp) and len(v.generators) == 1 and not v.generators[0].ifs \
+                    and isinstance(v.generators[0].target, ast.Tuple) and len(v.generators[0].target.elts) == 2 \
+                    and all(isinstance(e, ast.Name) for e in v.generators[0].target.elts) \
+                    and _is_call(v.generators[0].iter, lambda n: _start_slot(n) is not None, "items") \
+                    and not v.generators[0].iter.args and isinstance(v.key, ast.Name) \
+                    and v.key.id == v.generators[0].target.elts[0].id:
+                var = v.generators[0].target.elts[1].id
+                val = v.value
+                shallow = (isinstance(val, ast.Call) and not val.keywords and (
+                    (len(val.args) == 1 and isinstance(val.args[0], ast.Name) and val.args[0].id == var
+                     and ((isinstance(val.func, ast.Name) and val.func.id in ("list", "dict"))
+                          or (isinstance(val.func, ast.Attribute) and isinstance(val.func.value, ast.Name)
+                              and val.func.value.id == "copy" and val.func.attr == "copy")))
+                    or (not val.args and isinstance(val.func, ast.Attribute) and val.func.attr == "copy"
+                        and isinstance(val.func.value, ast.Name) and val.func.value.id == var)))
+                if shallow:
+                    return [f".levelCopyStart {sc.reg(tgt, u)} {_start_slot(v.generators[0].iter.func.value)} 2"]
+                if isinstance(val, ast.Name) and val.id == var:      # {k: v for ...} = dict(x)
+                    return [f".shallowCopyStart {sc.reg(tgt, u)} {_start_slot(v.generators[0].iter.func.value)}"]
             # x = self.start_Y
             if _start_slot(v) is not None:
                 return [f".aliasStart {sc.reg(tgt, u)} {_start_slot(v)}"]
@@ -349,41 +375,147 @@ def regenerate():
     return ok, msg
 
 
+# ====================================================================== object graphs of containers
+# Conventions shared with lean/PybropsModel/Drv/C20.lean: a dict is a cell with data [-9] whose references
+# are its values in insertion order (the list under "h" first); a list of ints is a cell holding them; a
+# list of objects is a cell [-8]; a numpy integer array is a cell [-7, values...].
+DEPTH = 5
+
+
+def graph_of(case):
+    """-> (nodes [{"d": data, "r": refs}], start [node index | None]) of the start containers"""
+    if "graph" in case:
+        return case["graph"], case["start"]
+    inner = {i: j for i, j in case.get("share", [])}      # cells[i]["h"] is the list object of cells[j]
+    nodes = []
+    for i, c in enumerate(case["cells"]):
+        nodes.append({"d": [-9], "r": [2 * inner.get(i, i) + 1]})
+        nodes.append({"d": list(c), "r": []})
+    return nodes, [None if x is None else 2 * x for x in case["start"]]
+
+
+def build_objects(nodes):
+    import numpy
+    objs = []
+    for n in nodes:
+        d = n["d"]
+        if d == [-9]:
+            objs.append({})
+        elif d[:1] == [-8]:
+            objs.append([])
+        elif d[:1] == [-7]:
+            objs.append(numpy.array(d[1:], dtype=numpy.int64))
+        else:
+            objs.append(list(d))
+    for n, o in zip(nodes, objs):
+        if isinstance(o, dict):
+            for j, r in enumerate(n["r"]):
+                o["h" if j == 0 else f"k{j}"] = objs[r]
+        elif n["d"][:1] == [-8]:
+            for r in n["r"]:
+                o.append(objs[r])
+    return objs
+
+
+def _is_int(x):
+    import numpy
+    return isinstance(x, (int, numpy.integer)) and not isinstance(x, (bool, numpy.bool_))
+
+
+def data_children(o):
+    """(data, children) of one object, see the conventions above"""
+    import numpy
+    if isinstance(o, dict):
+        return [-9], list(o.values())
+    if isinstance(o, numpy.ndarray):
+        try:
+            return [-7] + [int(x) for x in o.ravel()], []
+        except Exception:
+            return [-7, -999], []
+    if isinstance(o, (list, tuple)):
+        if all(_is_int(x) for x in o):
+            return [int(x) for x in o], []
+        return [-8], list(o)
+    return [-999], []
+
+
+def view(o, k=DEPTH, depth=0, out=None):
+    """depth-bounded pre-order unfolding of the object graph below `o` (= Program.view)"""
+    if out is None:
+        out = []
+    d, ch = data_children(o)
+    out.append([depth] + d)
+    if k > 0:
+        for c in ch:
+            view(c, k - 1, depth + 1, out)
+    return out
+
+
+def walk(o, path):
+    for i in path:
+        ch = data_children(o)[1]
+        if i >= len(ch):
+            return None
+        o = ch[i]
+    return o
+
+
+def mut_obj(o, tok):
+    """in-place mutation by kind (= Drv.C20.mutCell)"""
+    import numpy
+    if isinstance(o, dict):
+        h = o.setdefault("h", [])
+        if isinstance(h, list):
+            h.append(tok)
+    elif isinstance(o, numpy.ndarray):
+        if o.size >= 1:
+            o.ravel()[-1] = tok
+    elif isinstance(o, list):
+        if all(_is_int(x) for x in o):
+            o.append(tok)
+
+
 # ====================================================================== instrumented stubs
 class Recorder:
     """identity registry (keeps every object alive so ids are never reused) and the trace"""
 
     def __init__(self):
         self.objs = []
+        self.ids = {}
         self.trace = []
         self.prog = None
         self.script = []
         self.used = set()
+        self.seen = []          # every object the operators / logbook were handed or returned, in order
 
     def oid(self, o):
-        for i, x in enumerate(self.objs):
-            if x is o:
-                return i + 1
-        self.objs.append(o)
-        return len(self.objs)
+        k = id(o)
+        if k not in self.ids:
+            self.objs.append(o)
+            self.ids[k] = len(self.objs)
+        return self.ids[k]
 
     @staticmethod
     def val(o):
         if o is None:
             return None
-        if not isinstance(o, dict):
-            return [-999]
-        return [int(x) for x in o.get("h", [])]
+        return view(o)
+
+    def attr(self, name):
+        """a container of the programme, through its public property (private attribute as fallback)"""
+        p = self.prog
+        try:
+            return getattr(p, name)
+        except Exception:
+            return getattr(p, "_" + name, None)
 
     def start_vals(self):
-        p = self.prog
-        return [self.val(getattr(p, "_start_" + n, None)) for n in FIVE]
+        return [self.val(self.attr("start_" + n)) for n in FIVE]
 
     def start_ids(self):
-        p = self.prog
         out = []
         for n in FIVE:
-            o = getattr(p, "_start_" + n, None)
+            o = self.attr("start_" + n)
             out.append(None if o is None else self.oid(o))
         return out
 
@@ -398,8 +530,16 @@ class Recorder:
     @staticmethod
     def mutate(objs, muts):
         for o, m in zip(objs, muts):
-            if m is not None and isinstance(o, dict):
-                o.setdefault("h", []).append(m)
+            if m is not None and o is not None:
+                mut_obj(o, m)
+
+    @staticmethod
+    def deep(roots, ms):
+        for i, path, tok in ms:
+            if i < len(roots) and roots[i] is not None:
+                t = walk(roots[i], path)
+                if t is not None:
+                    mut_obj(t, tok)
 
     @staticmethod
     def select(objs, rets):
@@ -410,6 +550,20 @@ class Recorder:
             else:
                 out.append({"h": list(x)})
         return out
+
+
+def _nat(x):
+    """clock values are naturals in the model: a negative (or non-integer) clock is recorded as a value no
+    Spec accepts instead of one the protocol cannot carry"""
+    try:
+        x = int(x)
+    except Exception:
+        return 10 ** 9
+    return x if x >= 0 else 10 ** 9 + abs(x)
+
+
+class StubAbort(Exception):
+    """raised by a scripted operator to interrupt an evolve/advance call on purpose"""
 
 
 DEFAULT_RETS = {
@@ -430,15 +584,20 @@ def _stub_classes():
     from pybrops.breed.op.log.Logbook import Logbook
 
     def op_call(rec, kind, objs, t_cur, t_max):
-        ev = {"kind": "op:" + kind, "t": int(t_cur), "tmax": int(t_max), "rep": int(rec.lbook.rep),
+        ev = {"kind": "op:" + kind, "t": _nat(t_cur), "tmax": _nat(t_max), "rep": int(rec.lbook.rep),
               "args": [rec.oid(o) for o in objs], "argVals": [rec.val(o) for o in objs],
               "startVals": rec.start_vals()}
         a = rec.next_action("op:" + kind)
+        if a is not None and a.get("raise"):
+            raise StubAbort("scripted operator failure in " + kind)
         if a is None:
             rets = rec.select(objs, DEFAULT_RETS[kind])
         else:
+            rec.deep(rec.seen, a.get("late", []))      # objects kept from EARLIER calls, mutated now
             rec.mutate(objs, a.get("muts", []))
+            rec.deep(objs, a.get("deep", []))
             rets = rec.select(objs, a.get("rets", []))
+        rec.seen += list(objs) + list(rets)
         ev["rets"] = [rec.oid(o) for o in rets]
         ev["retVals"] = [rec.val(o) for o in rets]
         rec.trace.append(ev)
@@ -450,7 +609,7 @@ def _stub_classes():
 
         def initialize(self, **kwargs):
             rec = self.rec
-            ev = {"kind": "init", "t": int(rec.prog.t_cur), "tmax": int(rec.prog.t_max), "rep": int(rec.lbook.rep),
+            ev = {"kind": "init", "t": _nat(rec.prog.t_cur), "tmax": _nat(rec.prog.t_max), "rep": int(rec.lbook.rep),
                   "args": [], "argVals": [], "startVals": rec.start_vals()}
             a = rec.next_action("init")
             rets = rec.select([], a["rets"] if a is not None else [["new", []]] * 5)
@@ -511,13 +670,16 @@ def _stub_classes():
 
         def _log(self, kind, objs, t_cur, t_max, misc):
             rec = self.rec
-            ev = {"kind": "log:" + kind, "t": int(t_cur), "tmax": int(t_max), "rep": int(self._rep),
+            ev = {"kind": "log:" + kind, "t": _nat(t_cur), "tmax": _nat(t_max), "rep": int(self._rep),
                   "args": [rec.oid(o) for o in objs] + [0],
-                  "argVals": [rec.val(o) for o in objs] + [[int(x) for x in misc.get("h", [])]],
+                  "argVals": [rec.val(o) for o in objs] + [rec.val(dict(misc))],
                   "startVals": rec.start_vals(), "rets": [], "retVals": []}
             a = rec.next_action("log:" + kind)
             if a is not None:
+                rec.deep(rec.seen, a.get("late", []))
                 rec.mutate(objs, a.get("muts", []))
+                rec.deep(objs, a.get("deep", []))
+            rec.seen += list(objs)
             rec.trace.append(ev)
 
         def log_initialize(self, genome, geno, pheno, bval, gmod, t_cur, t_max, **kwargs):
@@ -598,12 +760,36 @@ class Renumber:
         out["startVals_after"] = c["startVals_after"]
         out["rep"] = c["rep"]
         out["t"] = c["t"]
+        out["tmax"] = c.get("tmax")
         return out
 
 
 N_ARGS = {"pselect": 6, "mate": 7, "evaluate": 6, "sselect": 6}
 N_RETS = {"pselect": 6, "mate": 5, "evaluate": 5, "sselect": 5}
 N_LOG = {"initialize": 5, "pselect": 6, "mate": 6, "evaluate": 5, "sselect": 5}
+
+
+def _pack(trace, prev):
+    """the trace with `startVals` replaced by "=" where it equals that of the previous event (lossless)"""
+    out = []
+    for e in trace:
+        if e["startVals"] == prev:
+            out.append(dict(e, startVals="="))
+        else:
+            out.append(e)
+        prev = e["startVals"]
+    return out
+
+
+def _unpack(trace):
+    out = []
+    prev = None
+    for e in trace:
+        if e["startVals"] == "=":
+            e = dict(e, startVals=prev)
+        prev = e["startVals"]
+        out.append(e)
+    return out
 
 
 def _calls(case):
@@ -613,32 +799,69 @@ def _calls(case):
     return [dict(r, m="evolve") for r in case["runs"]]
 
 
+REP1 = 40       # replicate counter of the second logbook before its first use
+
+
+def _bookkeeping(case):
+    """per call: (t_max in force, logbook index, replicate counter of that logbook before the call),
+    computed from the case alone"""
+    tmax = case["tmax"]
+    reps = [case["rep0"], case.get("rep1", REP1)]
+    cur = 0
+    out = []
+    for c in _calls(case):
+        if c["m"] in ("evolve", "advance"):
+            cur = c.get("book", 0)
+        out.append((tmax, cur, reps[cur]))
+        if c["m"] == "evolve":
+            reps[cur] += (c["abort_rep"] + 1) if c.get("abort") else c["nrep"]
+        elif c["m"] == "set_tmax":
+            tmax = c["value"]
+    return out
+
+
+def _plain(case):
+    """no attribute assignments, interrupted calls or second logbook: the shrinker can reshape the calls"""
+    return all(c["m"] in ("evolve", "reset", "advance") and not c.get("abort") and not c.get("book")
+               for c in _calls(case))
+
+
 class C20(Prop):
     PID = "C20"
     MODULE = "PybropsModel.Props.C20"
     N_QUICK = 240
     N_THOROUGH = 6000
-    RULE = ("RecurrentSelectionBreedingProgram driven through sequences of API calls — evolve(nrep 0-4, ngen 0-5 or "
-            "None, loginit on/off), reset(), advance(ngen) incl. advance after an evolve and reset between advances — "
-            "with scripted operator / logbook / initialisation stubs: start containers given (possibly the same dict "
-            "for two slots), partly missing or produced by the initialisation operator; every operator call mutates "
-            "handed containers in place with a unique token and returns per slot either the handed object, another "
-            "handed object (alias) or a fresh container with unique content; logbook calls may mutate too.  "
-            "Non-trivial = first call is evolve with nrep >= 2, ngen >= 1 (or the case has a direct reset/advance "
-            "call), at least one in-place mutation and at least one fresh return")
-    TRUSTED = ["copy.deepcopy is modelled on an object-graph heap (cells holding references): every cell that "
-               "existed at initialisation is copied and its internal references redirected, so the copy of a start "
-               "container is an isomorphic disjoint graph (theorems view_copy / Good.extend); that Python's "
-               "memoised traversal computes the same graph up to unreachable garbage is trusted",
+    RULE = ("RecurrentSelectionBreedingProgram (and a subclass inheriting its methods) driven through sequences of "
+            "API calls — evolve(nrep 0-4, ngen 0-5 or None, loginit on/off; also 130 generations, 260 replicates), "
+            "reset(), advance(ngen) incl. advance after an evolve and reset between advances; keyword, positional, "
+            "defaulted, extra-keyword and numpy-integer argument forms — with scripted operator / logbook / "
+            "initialisation stubs: start containers given (flat, nested up to 4 levels of dict / list / numpy array "
+            "with sharing between containers and cycles, or the same dict for two slots), partly missing or produced "
+            "by the initialisation operator; every operator call mutates handed containers in place with a unique "
+            "token (at the top and at every level below), may mutate objects it kept from EARLIER calls, and returns "
+            "per slot either the handed object, another handed object (alias) or a fresh container with unique "
+            "content; logbook calls may mutate too.  Non-trivial = first call is evolve with nrep >= 2, ngen >= 1 "
+            "(or the case has a direct reset/advance call), at least one in-place mutation and at least one fresh "
+            "return")
+    TRUSTED = ["copy.deepcopy is modelled on an object-graph heap (cells holding references, any nesting depth, "
+               "sharing and cycles): every cell that existed at initialisation is copied and its internal references "
+               "redirected, so the copy of a start container is an isomorphic disjoint graph at every level "
+               "(theorems view_copy / Good.extend; copies that stop k levels down are modelled too (levelCopy) and "
+               "refuted by shallow_level_counterexample); that Python's memoised traversal computes the same graph "
+               "up to unreachable garbage is trusted",
                "the ast -> Lean translator of harness/props/c20.py (one Lean statement per Python statement, "
                "nothing normalised); checked on every run by comparing the trace of the regenerated schedule "
                "with the real class",
                "Python attribute/property mechanics of the class (setters check_is_dict / check_is_int) and "
-               "keyword-argument binding"]
-    ASSUMPTIONS = ["operators, logbook and initialisation operator are reached only through the references "
-                   "they are handed (they hold no reference to the stored start containers)",
-                   "operators return dicts and tuples of the documented arity; nrep, ngen are non-negative ints "
-                   "(ngen may be None for evolve, documented as 'use t_max')",
+               "keyword-argument binding; attribute re-assignment by the user between calls (start_*, t_max, t_cur), "
+               "a second logbook and a call interrupted by a failing operator are covered by the correspondence "
+               "check and the Spec oracle only (the theorem about histories speaks of evolve/reset/advance calls)"]
+    ASSUMPTIONS = ["operators and logbook may keep every reference they are ever handed or return and mutate it in "
+                   "any later call (theorem evolve_meets_spec_of_footprint); at the time of a call they hold no "
+                   "reference into the object graphs of the stored start containers, and the initialisation "
+                   "operator does not keep what it returns",
+                   "operators return dicts and tuples of the documented arity; nrep, ngen are non-negative integers "
+                   "(Python or numpy; ngen may be None for evolve, documented as 'use t_max')",
                    "reset()/advance() are called directly only on an initialised programme, advance() only when "
                    "working containers exist"]
 
@@ -647,25 +870,131 @@ class C20(Prop):
         return regenerate()
 
     # ------------------------------------------------------------------ generation
-    def _script(self, rng, calls, needs_init, tok, style, tmax):
-        """actions in call order"""
+    @staticmethod
+    def _nested_graph(rng):
+        """object graph of five start containers nested up to 4 levels (dict -> list of objects -> dict /
+        array / list ...), with a numpy array somewhere, optionally an object shared between two containers,
+        a reference from one start container to another and a cycle.  Every dict has its "h" list first."""
+        nodes = []
+        cnt = [0]
+
+        def add(d, r=()):
+            nodes.append({"d": list(d), "r": list(r)})
+            return len(nodes) - 1
+
+        def num():
+            cnt[0] += 1
+            return cnt[0]
+
+        def leaf():
+            return add([num() for _ in range(rng.randint(1, 2))])
+
+        def arr():
+            return add([-7] + [num() for _ in range(rng.randint(1, 3))])
+
+        def sub(depth):
+            r = rng.random()
+            if depth <= 0:
+                return leaf() if r < 0.5 else arr()
+            if r < 0.15:
+                return leaf()
+            if r < 0.35:
+                return arr()
+            if r < 0.7:
+                i = add([-8])
+                nodes[i]["r"] = [sub(depth - 1) for _ in range(rng.randint(1, 2))]
+                return i
+            i = add([-9])
+            nodes[i]["r"] = [leaf()] + [sub(depth - 1) for _ in range(rng.randint(0, 2))]
+            return i
+
+        roots = []
+        for _ in range(5):
+            i = add([-9])
+            first = len(nodes)
+            nodes[i]["r"] = [leaf()] + [sub(3) for _ in range(rng.randint(1, 2))]
+            roots.append((i, first, len(nodes)))
+        # a chain that is certainly 4 levels deep below one container: dict -> list -> dict -> array
+        i0 = roots[rng.randrange(5)][0]
+        a = arr()
+        d = add([-9], [leaf(), a])
+        nodes[i0]["r"].append(add([-8], [d]))
+        r = rng.random()
+        if r < 0.35:          # one inner object shared by two start containers
+            x, y = rng.sample(range(5), 2)
+            lo, hi = roots[y][1], roots[y][2]
+            nodes[roots[x][0]]["r"].append(rng.randrange(lo, hi))
+        elif r < 0.5:         # a start container stored inside another one
+            x, y = rng.sample(range(5), 2)
+            nodes[roots[x][0]]["r"].append(roots[y][0])
+        elif r < 0.65:        # a cycle: an inner dict refers back to its container
+            nodes[d]["r"].append(i0)
+        return nodes, [t[0] for t in roots]
+
+    @staticmethod
+    def _paths(nodes, root, maxlen=4):
+        """paths (child indices) from `root` to every object that can be mutated in place"""
+        out = []
+        stack = [(root, [])]
+        while stack:
+            n, pth = stack.pop()
+            if nodes[n]["d"][:1] != [-8]:
+                out.append(pth)
+            if len(pth) < maxlen:
+                for j, r in enumerate(nodes[n]["r"]):
+                    stack.append((r, pth + [j]))
+        out.sort(key=lambda q: (len(q), q))
+        return out
+
+    def _script(self, rng, calls, needs_init, tok, style, tmax, paths=None, p_late=0.0):
+        """actions in call order.  `paths`: per start slot the mutable paths of a nested start container;
+        `p_late`: probability that a call also mutates an object kept from an EARLIER call"""
         def fresh():
             tok[0] += 1
             return tok[0]
 
+        nseen = [0]
+        rep_base = [0]          # index in `seen` of the arguments of the current replicate's first evaluation
+
+        def late():
+            if nseen[0] == 0 or rng.random() >= p_late:
+                return []
+            out = []
+            for _ in range(rng.randint(1, 2)):
+                r = rng.random()
+                if r < 0.4:
+                    i = rep_base[0] + rng.randrange(5)            # a working copy handed at the replicate's start
+                elif r < 0.8:
+                    i = rng.randrange(max(0, nseen[0] - 30), nseen[0])
+                else:
+                    i = rng.randrange(nseen[0])
+                pth = rng.choice([[], [], [0]]) if not paths else rng.choice(paths[rng.randrange(5)])
+                out.append([min(i, nseen[0] - 1), pth, fresh()])
+            return out
+
         def op_action(kind, first_eval=False):
             na, nr = N_ARGS[kind], N_RETS[kind]
             off = 1 if kind == "mate" else 0          # position of genome among the arguments
-            pm = {"pure": 0.0, "inplace": 0.9, "fresh": 0.2, "mixed": 0.5}[style]
+            pm = {"pure": 0.0, "inplace": 0.9, "fresh": 0.2, "mixed": 0.5, "sparse": 0.03}[style]
             muts = [fresh() if rng.random() < pm else None for _ in range(na)]
             if first_eval and style != "pure":
                 for i in range(5):
                     muts[off + i] = fresh()           # mutate all five working copies of the reset state
+            deep = []
+            if paths and style != "pure":
+                if first_eval:
+                    for i in range(5):                # ... at every level, the deepest object included
+                        ps = paths[i]
+                        for pth in {tuple(ps[-1]), tuple(rng.choice(ps)), tuple(rng.choice(ps))}:
+                            deep.append([off + i, list(pth), fresh()])
+                elif rng.random() < 0.4:
+                    i = rng.randrange(5)
+                    deep.append([off + i, rng.choice(paths[i]), fresh()])
             rets = []
             for i in range(nr):
                 slot = i - (1 if kind == "pselect" else 0)     # container slot of this return value (-1 = mcfg)
                 r = rng.random()
-                pf = {"pure": 0.5, "inplace": 0.1, "fresh": 0.9, "mixed": 0.45}[style]
+                pf = {"pure": 0.5, "inplace": 0.1, "fresh": 0.9, "mixed": 0.45, "sparse": 0.05}[style]
                 if slot < 0:
                     rets.append(["new", [fresh()]] if r < 0.8 else ["arg", rng.randrange(na)])
                 elif r < pf:
@@ -674,12 +1003,30 @@ class C20(Prop):
                     rets.append(["arg", rng.randrange(na)])   # alias of some handed object
                 else:
                     rets.append(["arg", off + slot])
-            return {"k": "op:" + kind, "muts": muts, "rets": rets}
+            a = {"k": "op:" + kind, "muts": muts, "rets": rets}
+            if deep:
+                a["deep"] = deep
+            lt = late()
+            if lt:
+                a["late"] = lt
+            if first_eval:
+                rep_base[0] = nseen[0]
+                a["first"] = True
+            nseen[0] += na + nr
+            return a
 
         def log_action(kind):
             n = N_LOG[kind]
             pm = 0.15 if style in ("mixed", "inplace") else 0.0
-            return {"k": "log:" + kind, "muts": [fresh() if rng.random() < pm else None for _ in range(n)]}
+            a = {"k": "log:" + kind, "muts": [fresh() if rng.random() < pm else None for _ in range(n)]}
+            if paths and pm and rng.random() < 0.15:
+                i = rng.randrange(5)
+                a["deep"] = [[(1 if kind in ("pselect", "mate") else 0) + i, rng.choice(paths[i]), fresh()]]
+            lt = late()
+            if lt:
+                a["late"] = lt
+            nseen[0] += n
+            return a
 
         def gens(n):
             out = []
@@ -690,31 +1037,56 @@ class C20(Prop):
             return out
 
         script = []
-        first = True
+        inited = not needs_init
         for c in calls:
+            seg = []
             if c["m"] == "evolve":
-                if first and needs_init:
+                if not inited:
                     rets = [["new", [fresh()]] for _ in range(5)]
                     if rng.random() < 0.3:        # equal contents in two slots
                         rets[rng.randrange(1, 5)] = ["new", list(rets[0][1])]
-                    script.append({"k": "init", "rets": rets})
+                    seg.append({"k": "init", "rets": rets})
+                    inited = True
                 ngen = c["ngen"] if c["ngen"] is not None else tmax
                 for _ in range(c["nrep"]):
-                    script.append(op_action("evaluate", first_eval=True))
+                    seg.append(op_action("evaluate", first_eval=True))
                     if c["loginit"]:
-                        script.append(log_action("initialize"))
-                    script += gens(ngen)
+                        seg.append(log_action("initialize"))
+                    seg += gens(ngen)
+                if c.get("abort"):
+                    # an operator fails in the middle of this call: keep the actions up to a randomly chosen
+                    # operator call, which raises instead of returning
+                    ops_at = [i for i, a in enumerate(seg) if a["k"].startswith("op:") and i >= 1]
+                    k = rng.choice(ops_at)
+                    seg = seg[:k + 1]
+                    c["abort_rep"] = sum(1 for a in seg if a.get("first")) - 1     # replicate it happens in
+                    seg[k] = {"k": seg[k]["k"], "raise": True}
+                    for a in seg:
+                        a["ab"] = True
             elif c["m"] == "advance":
-                script += gens(c["ngen"])
-            first = False
+                seg = gens(c["ngen"])
+            elif c["m"] == "set_start" and c.get("content") is None:
+                inited = False
+            elif c["m"] == "set_tmax":
+                tmax = c["value"]
+            script += seg
+        for a in script:
+            a.pop("first", None)
         return script
 
-    def _case(self, rng, calls, style="mixed", start_mode="given", tmax=None, tag="evolve"):
+    def _case(self, rng, calls, style="mixed", start_mode="given", tmax=None, tag="evolve", p_late=0.0,
+              subclass=False):
         tok = [100]
         share = []
+        graph = None
+        paths = None
         if start_mode == "given":
             cells = [[10 * (i + 1), 10 * (i + 1) + 1][:rng.randint(0, 2)] + [i + 1] for i in range(5)]
             start = [0, 1, 2, 3, 4]
+        elif start_mode == "nested":      # containers nested several levels deep (see _nested_graph)
+            cells = []
+            graph, start = self._nested_graph(rng)
+            paths = [self._paths(graph, r) for r in start]
         elif start_mode == "shared":      # the same dict object stored in two start slots
             cells = [[i + 1, 7] for i in range(4)]
             start = [0, 1, 1, 2, 3]
@@ -733,18 +1105,25 @@ class C20(Prop):
             start = [None] * 5
         if tmax is None:
             tmax = rng.choice([0, 3, 7, 20])
-        needs_init = any(s is None for s in start)
-        script = self._script(rng, calls, needs_init, tok, style, tmax)
-        return {"kind": f"{tag}:{start_mode}:{style}",
+        needs_init = any(x is None for x in start)
+        script = self._script(rng, calls, needs_init, tok, style, tmax, paths=paths, p_late=p_late)
+        case = {"kind": f"{tag}:{start_mode}:{style}" + (":late" if p_late else ""),
                 "tmax": tmax, "rep0": rng.choice([0, 0, 1, 5, -2]),
                 "cells": cells, "share": share, "start": start, "calls": calls, "script": script, "style": style,
                 "start_mode": start_mode}
+        if graph is not None:
+            case["graph"] = graph
+        if subclass:
+            case["subclass"] = True
+        return case
 
     @staticmethod
-    def _ev(nrep, ngen, loginit=True, verbose=False):
+    def _ev(nrep, ngen, loginit=True, verbose=False, form=None):
         c = {"m": "evolve", "nrep": nrep, "ngen": ngen, "loginit": loginit}
         if verbose:
             c["verbose"] = True
+        if form:
+            c["form"] = form
         return c
 
     def corpus(self):
@@ -775,6 +1154,47 @@ class C20(Prop):
             # ngen = None (documented: use t_max; regression cases of D36, fixed by 89fb67b3)
             self._case(rng, [ev(0, None)], tmax=3, tag="ngen-none"),
             self._case(rng, [ev(2, None)], tmax=2, tag="ngen-none"),
+            # containers nested several levels deep: only a copy of EVERY level keeps the start state apart
+            self._case(rng, [ev(2, 1)], start_mode="nested", style="inplace"),
+            self._case(rng, [ev(3, 2)], start_mode="nested", style="mixed"),
+            self._case(rng, [ev(2, 1), {"m": "reset"}, {"m": "advance", "ngen": 1}], start_mode="nested",
+                       style="inplace", tag="api"),
+            # operators / logbook that keep what they were handed and mutate it in a LATER call (nothing at once)
+            self._case(rng, [ev(3, 2)], style="pure", p_late=0.7),
+            self._case(rng, [ev(2, 2), ev(2, 1)], style="pure", p_late=0.7, tag="two-evolves"),
+            self._case(rng, [ev(2, 2)], start_mode="nested", style="pure", p_late=0.7),
+            self._case(rng, [ev(2, 1), {"m": "reset"}, {"m": "advance", "ngen": 2}, ev(1, 1)], style="mixed",
+                       p_late=0.5, tag="api"),
+            # sizes past small-integer limits: more than 127 / 255 generations and replicates
+            self._case(rng, [ev(1, 130)], style="sparse", tmax=200, tag="long"),
+            self._case(rng, [ev(260, 0)], style="sparse", tag="long"),
+            # rarely used call forms: positional arguments, defaults, extra keywords, numpy integers, a subclass
+            self._case(rng, [ev(2, 1, form="positional"), {"m": "advance", "ngen": 1, "form": "positional"}],
+                       tag="forms"),
+            self._case(rng, [ev(2, 1, loginit=False, form="positional")], tag="forms"),
+            self._case(rng, [ev(2, 2, form="default")], tag="forms"),
+            self._case(rng, [ev(2, 1, form="kwargs"), {"m": "reset", "form": "kwargs"},
+                             {"m": "advance", "ngen": 1, "form": "kwargs"}], tag="forms"),
+            self._case(rng, [ev(2, 2, form="npint"), {"m": "advance", "ngen": 1, "form": "npint"}], tag="forms"),
+            self._case(rng, [ev(2, 0, form="npint")], tag="forms"),
+            self._case(rng, [ev(2, 2)], subclass=True, style="inplace", tag="forms"),
+            self._case(rng, [ev(1, 1), ev(2, None)], tmax=1, subclass=True, tag="forms"),
+            # the user re-assigns attributes between calls: a new start container / None (=> initialise again),
+            # t_max (the default of ngen = None), the clock
+            self._case(rng, [ev(2, 1), {"m": "set_start", "slot": 1, "content": [71, 72]}, ev(2, 1)], tag="reassign"),
+            self._case(rng, [{"m": "reset"}, {"m": "set_start", "slot": 4, "content": [73]}, {"m": "reset"},
+                             {"m": "advance", "ngen": 1}], tag="reassign", style="inplace"),
+            self._case(rng, [ev(1, 1), {"m": "set_start", "slot": 2, "content": None}, ev(2, 1)], tag="reassign"),
+            self._case(rng, [ev(1, None), {"m": "set_tmax", "value": 3}, ev(2, None)], tmax=1, tag="reassign"),
+            self._case(rng, [{"m": "set_t", "value": 7}, ev(2, 1)], tag="reassign"),
+            self._case(rng, [{"m": "reset"}, {"m": "set_t", "value": 5}, {"m": "advance", "ngen": 2}], tag="reassign"),
+            # a different logbook handed to each call
+            self._case(rng, [ev(2, 1), dict(ev(2, 1), book=1), ev(1, 1)], tag="books"),
+            self._case(rng, [ev(1, 1), {"m": "advance", "ngen": 1, "book": 1}, dict(ev(2, 0), book=1)], tag="books"),
+            # an operator fails in the middle of an evolve; the programme is then used again
+            self._case(rng, [dict(ev(2, 2), abort=True), ev(2, 1)], tag="abort", style="inplace"),
+            self._case(rng, [dict(ev(1, 2), abort=True), {"m": "reset"}, {"m": "advance", "ngen": 1}], tag="abort"),
+            self._case(rng, [ev(1, 1), dict(ev(3, 1), abort=True), ev(2, 1)], tag="abort"),
         ]
         for c in out:
             c["_corpus"] = "builtin"
@@ -783,130 +1203,248 @@ class C20(Prop):
     def generate(self, rng, n, tier):
         out = []
         ev = self._ev
+        forms = [None] * 6 + ["positional", "default", "kwargs", "npint"]
         for _ in range(n):
             nrep = rng.choice([0, 1, 2, 2, 2, 3, 3, 4])
             ngen = rng.choice([0, 1, 1, 2, 2, 3, 4, 5])
             if tier == "thorough" and rng.random() < 0.05:
                 nrep, ngen = rng.randint(4, 8), rng.randint(4, 9)
             style = rng.choice(["mixed", "mixed", "mixed", "inplace", "fresh", "pure"])
-            mode = rng.choice(["given"] * 6 + ["shared", "shared-inner", "partial", "init", "init"])
+            mode = rng.choice(["given"] * 5 + ["nested"] * 2 + ["shared", "shared-inner", "partial", "init", "init"])
+            p_late = rng.choice([0.0, 0.0, 0.0, 0.3, 0.7])
+            sub = rng.random() < 0.1
+            if mode == "nested":
+                nrep, ngen = min(nrep, 3), min(ngen, 3)
             r = rng.random()
-            first = ev(nrep, ngen, loginit=rng.random() < 0.8, verbose=rng.random() < 0.1)
-            if r < 0.62:
-                out.append(self._case(rng, [first], style=style, start_mode=mode))
+            first = ev(nrep, ngen, loginit=rng.random() < 0.8, verbose=rng.random() < 0.1, form=rng.choice(forms))
+            if r < 0.09:
+                # attribute re-assignment, a second logbook, an interrupted call (flat start containers, no
+                # objects kept by the operators)
+                small = lambda: ev(rng.randint(1, 2), rng.randint(0, 2), loginit=rng.random() < 0.8)
+                which = rng.choice(["start", "start-none", "tmax", "t", "books", "abort", "abort"])
+                mode2 = rng.choice(["given", "given", "shared", "init"])
+                if which == "start":
+                    pre = [small()] if (rng.random() < 0.6 or mode2 == "init") else []
+                    calls = pre + [{"m": "set_start", "slot": rng.randrange(5), "content": [rng.randint(60, 99)]},
+                                   rng.choice([small(), {"m": "reset"}])]
+                elif which == "start-none":
+                    calls = [small(), {"m": "set_start", "slot": rng.randrange(5), "content": None}, small()]
+                elif which == "tmax":
+                    calls = [ev(rng.randint(0, 2), None), {"m": "set_tmax", "value": rng.randint(0, 3)},
+                             ev(rng.randint(1, 2), None)]
+                elif which == "t":
+                    calls = [small(), {"m": "set_t", "value": rng.randint(1, 9)},
+                             rng.choice([small(), {"m": "advance", "ngen": rng.randint(1, 2)}])]
+                    if calls[0]["nrep"] == 0:
+                        calls[0]["nrep"] = 1
+                elif which == "books":
+                    calls = [dict(small(), book=rng.randrange(2)) for _ in range(rng.randint(2, 3))]
+                    if rng.random() < 0.4 and calls[0]["nrep"] >= 1:
+                        calls.insert(1, {"m": "advance", "ngen": 1, "book": rng.randrange(2)})
+                else:
+                    ab = dict(ev(rng.randint(1, 3), rng.randint(1, 2), loginit=rng.random() < 0.8), abort=True)
+                    nxt = rng.choice([[ev(rng.randint(1, 2), rng.randint(0, 2))],
+                                      [{"m": "reset"}, {"m": "advance", "ngen": rng.randint(0, 2)}]])
+                    calls = ([small()] if rng.random() < 0.3 or mode2 == "init" else []) + [ab] + nxt
+                tag2 = {"start": "reassign", "start-none": "reassign", "tmax": "reassign", "t": "reassign",
+                        "books": "books", "abort": "abort"}[which]
+                out.append(self._case(rng, calls, style=rng.choice(["mixed", "inplace"]), start_mode=mode2, tag=tag2,
+                                      tmax=rng.choice([0, 1, 2, 3]) if which == "tmax" else None))
+            elif r < 0.62:
+                out.append(self._case(rng, [first], style=style, start_mode=mode, p_late=p_late, subclass=sub))
             elif r < 0.72:
-                second = ev(rng.randint(1, 2), rng.randint(0, 2), loginit=rng.random() < 0.8)
-                out.append(self._case(rng, [first, second], style=style, start_mode=mode, tag="two-evolves"))
+                second = ev(rng.randint(1, 2), rng.randint(0, 2), loginit=rng.random() < 0.8, form=rng.choice(forms))
+                out.append(self._case(rng, [first, second], style=style, start_mode=mode, tag="two-evolves",
+                                      p_late=p_late, subclass=sub))
             elif r < 0.76:
                 tmax = rng.choice([0, 1, 2, 3])
-                out.append(self._case(rng, [ev(rng.choice([0, 1, 2]), None, loginit=rng.random() < 0.8)],
-                                      style=style, start_mode=mode, tmax=tmax, tag="ngen-none"))
+                out.append(self._case(rng, [ev(rng.choice([0, 1, 2]), None, loginit=rng.random() < 0.8,
+                                               form=rng.choice(forms))],
+                                      style=style, start_mode=mode, tmax=tmax, tag="ngen-none", p_late=p_late))
             else:
                 # a history of direct API calls; reset/advance need an initialised programme, advance needs
                 # working containers
                 calls = []
                 have_work = False
-                inited = mode in ("given", "shared")
+                inited = mode in ("given", "shared", "nested", "shared-inner")
                 for _ in range(rng.randint(1, 5)):
                     choice = rng.random()
                     if not inited or choice < 0.3:
                         k = rng.choice([1, 1, 2])
-                        calls.append(ev(k, rng.randint(0, 2), loginit=rng.random() < 0.8))
+                        calls.append(ev(k, rng.randint(0, 2), loginit=rng.random() < 0.8, form=rng.choice(forms)))
                         inited, have_work = True, True
                     elif not have_work or choice < 0.55:
                         calls.append({"m": "reset"})
                         have_work = True
                     else:
-                        calls.append({"m": "advance", "ngen": rng.choice([0, 1, 1, 2, 3])})
-                out.append(self._case(rng, calls, style=style, start_mode=mode, tag="api"))
+                        c = {"m": "advance", "ngen": rng.choice([0, 1, 1, 2, 3])}
+                        f = rng.choice(forms)
+                        if f in ("positional", "kwargs", "npint"):
+                            c["form"] = f
+                        calls.append(c)
+                out.append(self._case(rng, calls, style=style, start_mode=mode, tag="api", p_late=p_late,
+                                      subclass=sub))
         return out
 
     # ------------------------------------------------------------------ implementation
     def run_impl(self, case):
+        import numpy
         Init, PSel, Mate, Eval, SSel, Book = stubs()
         mod = _prog_module()
         rec = Recorder()
         rec.script = case["script"]
-        cells = [{"h": list(c)} for c in case["cells"]]
-        for i, j in case.get("share", []):
-            cells[i]["h"] = cells[j]["h"]          # one list object below two dicts
-        start = [None if i is None else cells[i] for i in case["start"]]
-        book = Book(rec, case["rep0"])
+        nodes, start_ix = graph_of(case)
+        objs = build_objects(nodes)
+        start = [None if i is None else objs[i] for i in start_ix]
+        # the initial state is what the caller hands to the constructor (not what the object says it stored)
+        expected = [rec.val(o) for o in start]
+        books = [Book(rec, case["rep0"]), Book(rec, case.get("rep1", REP1))]
+        book = books[0]
         rec.lbook = book
-        prog = mod.RecurrentSelectionBreedingProgram(
+        cls = mod.RecurrentSelectionBreedingProgram
+        if case.get("subclass"):
+            cls = type("DerivedProgram", (cls,), {"__doc__": "a subclass that inherits reset/advance/evolve"})
+        prog = cls(
             Init(rec), PSel(rec), Mate(rec), Eval(rec), SSel(rec), case["tmax"],
             start_genome=start[0], start_geno=start[1], start_pheno=start[2], start_bval=start[3],
             start_gmod=start[4])
         rec.prog = prog
 
         def work():
-            objs = [getattr(prog, "_" + n, None) for n in FIVE]
+            objs = [rec.attr(n) for n in FIVE]
             return [None if o is None else rec.oid(o) for o in objs], [rec.val(o) for o in objs]
+
+        def num(x, form):
+            return numpy.int64(x) if (form == "npint" and x is not None) else x
 
         out = []
         for c in _calls(case):
             rec.trace = []
+            if c["m"] in ("evolve", "advance"):
+                book = books[c.get("book", 0)]       # a different logbook may be handed to each call
+                rec.lbook = book
             w_ids, w_vals = work()
-            o = {"m": c["m"], "start_before": rec.start_ids(), "V0given": rec.start_vals(),
-                 "work_before": w_ids, "workVals_before": w_vals, "t_before": int(prog.t_cur), "raised": None}
+            o = {"m": c["m"], "start_before": rec.start_ids(), "V0given": expected,
+                 "work_before": w_ids, "workVals_before": w_vals, "t_before": _nat(prog.t_cur),
+                 "rep_before": int(book.rep), "raised": None}
+            form = c.get("form")
             try:
                 with contextlib.redirect_stdout(io.StringIO()):
                     if c["m"] == "evolve":
-                        prog.evolve(nrep=c["nrep"], ngen=c["ngen"], lbook=book, loginit=c["loginit"],
-                                    verbose=bool(c.get("verbose", False)))
+                        nrep, ngen = num(c["nrep"], form), num(c["ngen"], form)
+                        vb = bool(c.get("verbose", False))
+                        if form == "positional":
+                            prog.evolve(nrep, ngen, book, c["loginit"], vb)
+                        elif form == "default" and c["loginit"] and not vb:
+                            prog.evolve(nrep=nrep, ngen=ngen, lbook=book)         # loginit, verbose: defaults
+                        elif form == "kwargs":
+                            prog.evolve(nrep=nrep, ngen=ngen, lbook=book, loginit=c["loginit"], verbose=vb,
+                                        note="extra keyword", seed=None)
+                        else:
+                            prog.evolve(nrep=nrep, ngen=ngen, lbook=book, loginit=c["loginit"], verbose=vb)
                     elif c["m"] == "reset":
-                        prog.reset()
+                        if form == "kwargs":
+                            prog.reset(note="extra keyword")
+                        else:
+                            prog.reset()
+                    elif c["m"] == "set_start":          # the user assigns a new start container (or None)
+                        obj = None if c.get("content") is None else {"h": list(c["content"])}
+                        setattr(prog, "start_" + FIVE[c["slot"]], obj)
+                        expected = list(expected)
+                        expected[c["slot"]] = rec.val(obj)
+                    elif c["m"] == "set_tmax":
+                        prog.t_max = c["value"]
+                    elif c["m"] == "set_t":
+                        prog.t_cur = c["value"]
                     else:
-                        prog.advance(ngen=c["ngen"], lbook=book)
+                        ngen = num(c["ngen"], form)
+                        if form == "positional":
+                            prog.advance(ngen, book)
+                        elif form == "kwargs":
+                            prog.advance(ngen=ngen, lbook=book, verbose=False, note="extra keyword")
+                        else:
+                            prog.advance(ngen=ngen, lbook=book)
+            except StubAbort as e:
+                if c.get("abort"):              # the scripted operator failure this call is meant to meet
+                    o["aborted"] = True
+                else:
+                    o["raised"] = {"type": type(e).__name__, "text": f"{type(e).__name__}: {e}"[:200]}
             except Exception as e:          # every generated call is valid: raising is a Spec violation
                 o["raised"] = {"type": type(e).__name__, "text": f"{type(e).__name__}: {e}"[:200]}
             w_ids, w_vals = work()
             o.update({"trace": rec.trace, "start_after": rec.start_ids(), "startVals_after": rec.start_vals(),
-                      "work": w_ids, "workVals": w_vals, "rep": int(book.rep), "t": int(prog.t_cur)})
+                      "work": w_ids, "workVals": w_vals, "rep": int(book.rep), "t": _nat(prog.t_cur),
+                      "tmax": _nat(prog.t_max)})
             out.append(o)
             if o["raised"]:
                 break
+            if rec.trace and rec.trace[0]["kind"] == "init":
+                expected = rec.trace[0]["retVals"]      # initialised by the operator: that is the initial state
         return {"calls": out, "script_left": len(case["script"]) - len(rec.used)}
 
     # ------------------------------------------------------------------ model requests
     def requests(self, case, obs):
-        reqs = [{"op": "c20.run", "cells": case["cells"], "share": case.get("share", []), "start": case["start"],
+        nodes, start_ix = graph_of(case)
+        calls = _calls(case)
+        bk = _bookkeeping(case)
+        mcalls = []
+        for c, (_, _, rep_in) in zip(calls, bk):
+            if c.get("abort"):
+                continue                     # an interrupted call is not run by the model (see judge)
+            m = {k: v for k, v in c.items() if k in ("m", "nrep", "ngen", "loginit", "slot", "content", "value")}
+            if c["m"] in ("evolve", "advance", "reset"):
+                m["rep_in"] = rep_in
+            mcalls.append(m)
+        reqs = [{"op": "c20.run", "graph": nodes, "start": start_ix,
                  "tmax": case["tmax"],
-                 "rep0": case["rep0"], "script": case["script"],
-                 "calls": [{k: v for k, v in c.items() if k != "verbose"} for c in _calls(case)]}]
-        for c, o in zip(_calls(case), obs["calls"]):
-            if o["raised"]:
+                 "rep0": case["rep0"], "script": [a for a in case["script"] if not a.get("ab")],
+                 "calls": mcalls}]
+        for c, o, (tmax, _, _) in zip(calls, obs["calls"], bk):
+            if o["raised"] or o.get("aborted") or c.get("abort"):
                 continue
             if c["m"] == "evolve":
-                ngen = c["ngen"] if c["ngen"] is not None else case["tmax"]     # documented default
+                ngen = c["ngen"] if c["ngen"] is not None else tmax     # documented default
                 reqs.append({"op": "c20.spec", "nrep": c["nrep"], "ngen": ngen, "loginit": c["loginit"],
-                             "V0given": o["V0given"], "trace": o["trace"], "startVals_after": o["startVals_after"]})
+                             "V0given": o["V0given"], "trace": _pack(o["trace"], o["V0given"]),
+                             "startVals_after": o["startVals_after"],
+                             "rep_before": o.get("rep_before"), "rep_after": o["rep"]})
             elif c["m"] == "reset":
                 reqs.append({"op": "c20.spec_reset", "V0": o["V0given"], "workVals": o["workVals"], "t": o["t"],
                              "startVals_after": o["startVals_after"]})
-            else:
+            elif c["m"] == "advance":
                 reqs.append({"op": "c20.spec_advance", "ngen": c["ngen"], "t0": o["t_before"], "V0": o["V0given"],
-                             "cur": o["work_before"], "curVals": o["workVals_before"], "trace": o["trace"],
+                             "cur": o["work_before"], "curVals": o["workVals_before"],
+                             "trace": _pack(o["trace"], o["V0given"]),
                              "startVals_after": o["startVals_after"]})
         return reqs
 
     def judge(self, case, obs, answers):
-        for a in answers:
-            if "err" in a:
-                raise RuntimeError("driver error: " + a["err"])
         calls = _calls(case)
-        model = answers[0]["ok"]["calls"]
         detail = []
         corr = True
+        if "err" in answers[0]:
+            # the model could not be run on this case (never on the unchanged tree)
+            raise RuntimeError("driver error: " + answers[0]["err"])
+        model = answers[0]["ok"]["calls"]
         rm, ro = Renumber(1), Renumber(0)
-        if len(model) != len(obs["calls"]):
+        # the model does not run interrupted calls: align the remaining ones
+        pairs = [(i, c, o) for i, (c, o) in enumerate(zip(calls, obs["calls"])) if not c.get("abort")]
+        n_expected = len([c for c in calls if not c.get("abort")])
+        if len(obs["calls"]) == len(calls) and len(model) != n_expected:
             corr = False
-            detail.append(f"model performed {len(model)} calls, implementation {len(obs['calls'])}")
-        for i, (m, o) in enumerate(zip(model, obs["calls"])):
+            detail.append(f"model performed {len(model)} calls, implementation {n_expected}")
+        for (i, c, o), m in zip(pairs, model):
+            m = dict(m, trace=_unpack(m["trace"]))
             if bool(m["bad"]) != bool(o["raised"]):
                 corr = False
                 detail.append(f"call {i} ({o['m']}): model raises={m['bad']}, implementation raised={o['raised']}")
             cm, co = rm.call(m), ro.call(o)
+            if c["m"] == "set_start" or any(x.get("abort") for x in calls[:i]):
+                # identities created by the caller / in a call the model does not run: compare contents only
+                for k in ("start_before", "start_after", "work"):
+                    cm.pop(k), co.pop(k)
+                for e in cm["trace"] + co["trace"]:
+                    e.pop("args"), e.pop("rets")
             if cm != co:
                 corr = False
                 detail.append(f"call {i} ({o['m']}): " + _first_diff(cm, co))
@@ -918,7 +1456,20 @@ class C20(Prop):
                 spec = False
                 sdetail.append(f"call {i} ({c['m']}) raised {o['raised']['text']}")
                 continue
-            a = next(it)["ok"]
+            if c.get("abort"):
+                if not o.get("aborted"):
+                    # the scripted failure was never reached: the call performed fewer operator calls than scripted
+                    sdetail.append(f"call {i} ({c['m']}) was scripted to be interrupted but ran to its end")
+                continue
+            if c["m"] not in ("evolve", "reset", "advance"):
+                continue
+            a = next(it)
+            if "err" in a:
+                # what was recorded from the real class is not a trace the protocol can carry: not a valid run
+                spec = False
+                sdetail.append(f"call {i} ({c['m']}) Spec: recorded trace rejected by the oracle's decoder ({a['err'][:120]})")
+                continue
+            a = a["ok"]
             if not a["ok"]:
                 spec = False
             sdetail.append(f"call {i} ({c['m']}) Spec: {a['detail']}")
@@ -927,7 +1478,8 @@ class C20(Prop):
         c0 = calls[0]
         big = (c0["m"] == "evolve" and c0["nrep"] >= 2 and (c0["ngen"] or 0) >= 1) or \
             any(c["m"] != "evolve" for c in calls)
-        nontriv = (big and any(m is not None for a in sc for m in a.get("muts", []))
+        nontriv = (big and any(a.get("deep") or a.get("late") or any(m is not None for m in a.get("muts", []))
+                               for a in sc)
                    and any(r[0] == "new" for a in sc[1:] for r in a.get("rets", [])))
         return {"corr": corr, "spec": spec, "nontrivial": nontriv, "detail": "; ".join(detail)}
 
@@ -939,8 +1491,8 @@ class C20(Prop):
         """drop a call / the last replicate / the last generation of a call (keeping the remaining
         scripted actions as they are), simplify the start containers, then neutralise single actions"""
         calls = _calls(case)
-        shape = [(i, c.get("nrep"), c.get("ngen")) for i, c in enumerate(calls)]
-        if len(calls) > 1:
+        shape = [(i, c.get("nrep"), c.get("ngen")) for i, c in enumerate(calls)] if _plain(case) else []
+        if len(calls) > 1 and shape:
             yield self._reshape(case, shape[:-1])
             if calls[0]["m"] != "evolve" or all(s is not None for s in case["start"]):
                 if calls[1]["m"] != "advance" or calls[0]["m"] == "reset":
@@ -953,15 +1505,34 @@ class C20(Prop):
                 yield self._reshape(case, shape[:j] + [(i, nrep, ngen - 1)] + shape[j + 1:])
         if case.get("start_mode") != "given" and all(s is not None for s in case["start"]):
             c = copy.deepcopy(case)
+            c.pop("graph", None)
             c["share"] = []
             c["cells"] = [[i + 1] for i in range(5)]
             c["start"] = [0, 1, 2, 3, 4]
             c["start_mode"] = "given"
             yield c
+        for key in ("form", "verbose"):
+            if any(key in x for x in calls):
+                c = copy.deepcopy(case)
+                c.pop("runs", None)
+                c["calls"] = [{k: v for k, v in x.items() if k != key} for x in calls]
+                yield c
+        if case.get("subclass"):
+            c = copy.deepcopy(case)
+            c.pop("subclass")
+            yield c
+        for key in ("late", "deep"):
+            if any(a.get(key) for a in case["script"]):
+                c = copy.deepcopy(case)
+                for a in c["script"]:
+                    a.pop(key, None)
+                yield c
         for i, a in enumerate(case["script"][:40]):
-            if any(m is not None for m in a.get("muts", [])):
+            if any(m is not None for m in a.get("muts", [])) or a.get("deep") or a.get("late"):
                 c = copy.deepcopy(case)
                 c["script"][i]["muts"] = [None] * len(a["muts"])
+                c["script"][i].pop("deep", None)
+                c["script"][i].pop("late", None)
                 yield c
 
     @staticmethod
@@ -1107,6 +1678,72 @@ class C20(Prop):
             ("evolve_log_initialize_dropped", mk(["evolve"], lambda s: s.replace("            if loginit:", "            if False:"))),
             ("evolve_evaluates_start_containers", mk(["evolve"], lambda s: s.replace(
                 "            self.reset()\n", "            self.reset()\n            self._geno = self._start_geno\n"))),
+            # ---- copies that stop above the deepest level (seen only with containers nested deeper)
+            ("reset_two_level_copy_of_geno", mk(["reset"], lambda s: s.replace(
+                "copy.deepcopy(self.start_geno)", "{k: copy.copy(v) for k, v in self.start_geno.items()}"))),
+            ("reset_three_level_copy_of_pheno", mk(["reset"], lambda s: s.replace(
+                "copy.deepcopy(self.start_pheno)",
+                "{k: ([copy.copy(x) for x in v] if isinstance(v, list) else "
+                "({a: copy.copy(b) for a, b in v.items()} if isinstance(v, dict) else copy.copy(v))) "
+                "for k, v in self.start_pheno.items()}"))),
+            ("reset_recursive_copy_shares_arrays", mk(["reset"], lambda s: s.replace(
+                "copy.deepcopy(self.start_bval)",
+                "(lambda f, x: f(f, x, 0))(lambda f, x, n: ({k: f(f, v, n + 1) for k, v in x.items()} "
+                "if isinstance(x, dict) and n < 8 else ([f(f, v, n + 1) for v in x] if isinstance(x, list) and n < 8 "
+                "else x)), self.start_bval)"))),
+            # ---- state kept between calls
+            ("reset_deepcopy_memo_kept_between_resets", mk(["reset"], lambda s: s.replace(
+                "copy.deepcopy(self.start_gmod)",
+                "copy.deepcopy(self.start_gmod, self.__dict__.setdefault('_memo', {}))"))),
+            ("reset_copies_only_once", mk(["reset"], lambda s: s.replace(
+                "        self.geno = copy.deepcopy(self.start_geno)",
+                "        self.geno = self.__dict__.setdefault('_geno0', copy.deepcopy(self.start_geno))"))),
+            # ---- caches that go stale when the user re-assigns an attribute / hands another logbook / a call fails
+            ("reset_copies_a_snapshot_taken_at_first_reset", mk(["reset"], lambda s: s.replace(
+                "copy.deepcopy(self.start_geno)",
+                "copy.deepcopy(self.__dict__.setdefault('_geno_snapshot', copy.deepcopy(self.start_geno)))"))),
+            ("evolve_initialisation_test_cached", mk(["evolve"], lambda s: s.replace(
+                "        if not self.is_initialized():\n            self.initialize()\n",
+                "        if not self.__dict__.get('_init_done') and not self.is_initialized():\n"
+                "            self.initialize()\n        self._init_done = True\n"))),
+            ("evolve_ngen_default_cached", mk(["evolve"], lambda s: s.replace(
+                "            ngen = self._t_max\n", "            ngen = self.__dict__.setdefault('_ngen_default', self._t_max)\n"))),
+            ("evolve_keeps_first_logbook", mk(["evolve"], lambda s: s.replace(
+                "        # initialize if needed\n", "        lbook = self.__dict__.setdefault('_lbook', lbook)\n        # initialize if needed\n"))),
+            ("evolve_not_reentrant_after_failure", mk(["evolve"], lambda s: s.replace(
+                "        # initialize if needed\n",
+                "        if self.__dict__.get('_running'):\n            return\n        self._running = True\n        # initialize if needed\n").replace(
+                "                verbose = verbose,\n                **kwargs\n            )\n",
+                "                verbose = verbose,\n                **kwargs\n            )\n        self._running = False\n"))),
+            # ---- sizes
+            ("advance_clock_wraps_at_128", mk(["advance"], lambda s: s.replace(
+                "            self._t_cur += 1", "            self._t_cur = (self._t_cur + 1) % 128"))),
+            ("evolve_rep_counter_wraps_at_256", mk(["evolve"], lambda s: s.replace(
+                "            lbook.rep += 1", "            lbook.rep = (lbook.rep + 1) % 256"))),
+            # ---- replicate counter
+            ("evolve_rep_counter_set_from_loop_index", mk(["evolve"], lambda s: s.replace(
+                "            lbook.rep += 1", "            lbook.rep = r + 1"))),
+            ("evolve_rep_counter_incremented_twice", mk(["evolve"], lambda s: s.replace(
+                "            lbook.rep += 1", "            lbook.rep += 1 if r == 0 else 2"))),
+            # ---- rarely used call forms
+            ("evolve_signature_ngen_before_nrep", mk(["evolve"], lambda s: s.replace(
+                "def evolve(self, nrep, ngen, lbook,", "def evolve(self, ngen, nrep, lbook,"))),
+            ("evolve_loginit_default_false", mk(["evolve"], lambda s: s.replace(
+                "lbook, loginit = True, verbose = False", "lbook, loginit = False, verbose = False"))),
+            ("evolve_numpy_ngen_replaced_by_t_max", mk(["evolve"], lambda s: s.replace(
+                "        if ngen is None:\n", "        if not isinstance(ngen, int):\n"))),
+            ("advance_signature_lbook_first", mk(["advance", "evolve"], lambda s: s.replace(
+                "def advance(self, ngen, lbook,", "def advance(self, lbook, ngen,"))),
+            ("evolve_rejects_extra_keywords", mk(["evolve"], lambda s: s.replace(
+                "loginit = True, verbose = False, **kwargs: dict):", "loginit = True, verbose = False):").replace(
+                "                verbose = verbose,\n                **kwargs\n", "                verbose = verbose\n"))),
+            ("reset_only_for_exact_class", mk(["reset"], lambda s: s.replace(
+                "        self.genome = copy.deepcopy(self.start_genome)",
+                "        if type(self).__name__ != 'RecurrentSelectionBreedingProgram':\n"
+                "            self.genome = self.start_genome; self.geno = self.start_geno; self.pheno = self.start_pheno\n"
+                "            self.bval = self.start_bval; self.gmod = self.start_gmod; self.t_cur = 0\n"
+                "            return\n"
+                "        self.genome = copy.deepcopy(self.start_genome)"))),
         ]
 
 
